@@ -575,6 +575,11 @@ def _probes(model, rep):
                          "cells")
             if isinstance(a, L):
                 return L([("rep", Poly.coerce(n))] + a.dims, a.what)
+        if name == "numpy.repeat" and len(args) == 2 and isinstance(
+                args[0], L):
+            # every element repeated n times: the repetition is minor
+            return L(args[0].dims + [("rep", Poly.coerce(args[1]))],
+                     args[0].what)
         if name.endswith("coo_matrix"):
             cap.setdefault("all", []).append((args, kwargs, cur["np"]))
             cap["coo"] = (args, kwargs)
